@@ -44,9 +44,11 @@ def main():
     t0 = time.time()
     common.assert_hooks()
     reports = []
+    engine_wall = 0.0
     for name in ENGINES[prop]:
         eng = importlib.import_module(name)
         res = eng.run(a.tier, seed)
+        engine_wall += float(res.get("wall", 0.0))     # the engine's own run time, also when its result came from the cache
         reports.append((name, eng.report(prop, res)))
     unknown, known_seen, mach = [], {}, []
     for name, rep in reports:
@@ -86,7 +88,7 @@ def main():
     cov["known_findings_matched"] = known_seen
     cov["machinery_problems"] = mach
     assumptions = [x for _, rep in reports for x in rep["assumptions"]]
-    common.write_evidence(prop, a.tier, seed, reports[0][1]["level"], cov, assumptions, time.time() - t0, len(unknown))
+    common.write_evidence(prop, a.tier, seed, reports[0][1]["level"], cov, assumptions, max(time.time() - t0, engine_wall), len(unknown))
     if unknown:
         sys.exit(1)
     if mach:
